@@ -81,10 +81,11 @@ class _Gen:
         self.s_msg_or_none = st.sampled_from([None, None] + _MESSAGES)
         self.s_val = st.one_of(jg.cheap_value(), jg.cheap_value(), jg.cheap_value(), jg.json_value(6))
         self.s_typed = st.sampled_from(_TYPED)
-        self.s_retval = st.one_of(st.sampled_from([0, False, '', [], {}, 0.0, None, -0.0]), self.s_val, self.s_val)
+        self.s_libtyped = st.sampled_from(['ServerError', 'InternalError', 'SrvRange', 'InvalidParamsError', 'MethodNotFoundError', 'ServerError', 'InternalError'])
+        self.s_retval = jg.weighted(st.sampled_from([0, False, '', [], {}, 0.0, None, -0.0]), self.s_val, self.s_val)
         self.s_exc = st.sampled_from(EXC_NAMES)
         self.s_marker = st.integers(0, 10**6)
-        self.s_retval_py = st.one_of(self.s_retval, self.s_retval, st.sampled_from([{'$py': n} for n in sorted(jg.PY_FORMS)]))
+        self.s_retval_py = jg.weighted(self.s_retval, self.s_retval, st.sampled_from([{'$py': n} for n in sorted(jg.PY_FORMS)]))
         self.rpc_error = st.composite(lambda draw: self._rpc_error(draw))()
         self.behaviours = st.composite(lambda draw: self._behaviours(draw))()
         self.behaviours_py = st.composite(lambda draw: self._behaviours(draw, True))()
@@ -101,8 +102,12 @@ class _Gen:
         if draw(self.s_bits) % 8 == 0:
             # an application error class with its own constructor signature
             return {'cls': 'QuotaError', 'code': None, 'message': None, 'data': {'value': {'limit': draw(self.s_three)}}}
-        if draw(self.s_three) < 2:
+        k = draw(self.s_three)
+        if k == 0:
             return {'cls': 'JsonRpcError', 'code': draw(self.s_code), 'message': draw(self.s_msg), 'data': self._data(draw)}
+        if k == 1:
+            # the classes the library itself answers with, raised deliberately by the application with its own message / data
+            return {'cls': draw(self.s_libtyped), 'code': None, 'message': draw(self.s_msg_or_none), 'data': self._data(draw)}
         return {'cls': draw(self.s_typed), 'code': None, 'message': draw(self.s_msg_or_none), 'data': self._data(draw)}
 
     def _behaviours(self, draw, pyforms: bool = False):
